@@ -9,6 +9,7 @@ CONSTANTS
   TermIsForced = FALSE
   SecondStopHangs = FALSE
   AwaitsLastWorkerOnly = FALSE
+  WakeAcceptFirst = FALSE
 SPECIFICATION Spec
 VIEW View
 INVARIANTS NEG_ForcedNeverCompletesWithLive
